@@ -6,6 +6,7 @@ import Spine.C19
 import Spine.RndSound
 import Spine.C19Exec
 import Spine.DurTextThm
+import Spine.C19Wide
 /-!
 # C19 — numeric and temporal conversions are exact within their declared precision
 
@@ -242,6 +243,27 @@ example : (5629499534213123 : Int) = 10 * 2 ^ 49 + 3 ∧ (3518437208883202 : Int
     exactAt .repaired 5629499534213123 1 = false ∧ exactAt .repaired 3518437208883202 2 = false ∧
     exactAt .repaired 4398046511104021 3 = false ∧ exactAt .repaired 2748779069440004 4 = false ∧
     exactAt .repaired 29 2 = true ∧ exactAt .asWritten 29 2 = false := by decide +kernel
+
+/-- the arithmetic heart of that error analysis AS A THEOREM over the rounding relation, with NO bound on the
+    numerator: if `m * 2^-E` is the double nearest to `j / T` and `m' * 2^-E'` the double nearest to that double times
+    `T`, then `math.Round` of the latter is `j` whenever `2^E + T * 2^E' < 2^E * 2^E'` (the error of `v` times `T` plus
+    the error of the product stay below one half: `T / 2^E + 1 / 2^E' < 1`). Below the power of two of the witnesses
+    the exponents are `E ≥ 8, 11, 15` (d = 2, 3, 4), `E' ≥ 1`, and the condition holds; at the witnesses `E` drops by
+    one and it fails. (What stays an argument: that the binade of `v` and of the product give these exponents, and
+    the count of decimals; `d = 1` needs the finer analysis of ties.) -/
+theorem c19_round_recovers_wide (j T m m' E E' : Nat) (hab : 2 ^ E + T * 2 ^ E' < 2 ^ E * 2 ^ E')
+    (h1 : IsRnd j T m (-(E : Int))) (h2 : IsRnd (m * T) (2 ^ E) m' (-(E' : Int))) :
+    roundHalfUp m' E' = j := Rnd.c19_round_recovers_wide j T m m' E E' hab h1 h2
+
+/-- non-vacuity: the last decimal below the power of two for d = 2 (`100 * 2^45 - 1`, far above 2^50) satisfies the
+    hypotheses with `E = 8`, `E' = 1`; so do the ones for d = 3 (`E = 11`) and d = 4 (`E = 15`); at the witness
+    `100 * 2^45 + 2` the exponent is 7 and the condition is false -/
+example : (2 : Nat) ^ 50 < 100 * 2 ^ 45 - 1 ∧
+    IsRnd (100 * 2 ^ 45 - 1) 100 9007199254740989 (-(8 : Nat)) ∧
+    IsRnd (9007199254740989 * 100) (2 ^ 8) 7036874417766398 (-(1 : Nat)) ∧
+    2 ^ 8 + 100 * 2 ^ 1 < 2 ^ 8 * 2 ^ 1 ∧ 2 ^ 11 + 1000 * 2 ^ 1 < 2 ^ 11 * 2 ^ 1 ∧ 2 ^ 15 + 10000 * 2 ^ 1 < 2 ^ 15 * 2 ^ 1 ∧
+    IsRnd (100 * 2 ^ 45 + 2) 100 4503599627370499 (-(7 : Nat)) ∧ ¬ (2 ^ 7 + 100 * 2 ^ 1 < 2 ^ 7 * 2 ^ 1) := by
+  decide +kernel
 
 /-- the witnesses and the member: the first one (a collision of two decimals in one double) is lost by every
     member; the other three are artefacts of `math.Round` on a product that lies exactly half a unit above `k`
